@@ -600,7 +600,8 @@ func (mi *muxInst) videoData(u wunit) [][]byte {
 			// every kind of random-access picture: IDR_W_RADL, IDR_N_LP, CRA_NUT
 			au = append(au, append([]byte{byte([3]int{19, 20, 21}[u.Seq%3]) << 1, 0x01}, payloadTail(u, 0)...))
 		} else {
-			au = append(au, append([]byte{1 << 1, 0x01}, payloadTail(u, 0)...))
+			// every kind of picture that is not a random-access point: TRAIL, TSA, STSA, RADL, RASL (_N and _R)
+			au = append(au, append([]byte{byte([10]int{1, 0, 3, 2, 5, 4, 7, 6, 9, 8}[u.Seq%10]) << 1, 0x01}, payloadTail(u, 0)...))
 		}
 	case "av1":
 		// every other temporal unit opens with a temporal delimiter, as in a raw AV1 bit stream
